@@ -119,6 +119,18 @@ Theorem C06_cavity_off_part_nonlinear_refuted : forall L phi f E q1 q2, m_e < E 
   T566 <> 0.
 Proof. exact cavity_off_part_nonlinear_refuted. Qed.
 
+(* the covariance returned by Cavity.track(ParameterBeam) is not positive semi-definite (F2): with
+   c = cx L 0 0 = cos(sqrt(1e-12) L) (the (0,0) entry of the zero-voltage map; c = 1 at L = 0) *)
+Theorem C06_cavity_param_not_psd_refuted : forall L phi f E q1 q2, 0 < E ->
+  let b := mkPart [mk7 1 0 0 0 1 0 1; mk7 (-1) 0 0 0 (-1) 0 1] E [q1; q2] [1; 1] in
+  let c := cx L 0 0 in
+  let S := pcov (cavity_param L 0 phi f (moments 0 1 Rplus Rmult Rminus Rinv b)) in
+  let v := mk7 1 0 0 0 (- c) 0 0 in
+  dot Rplus Rmult v (mvec Rplus Rmult S v) = - 2 * c ^ 2.
+Proof. exact cavity_param_not_psd_refuted. Qed.
+Example C06_cx_at_zero_length : cx 0 0 0 = 1.
+Proof. exact cx_L0. Qed.
+
 (** non-vacuity: the hypotheses of C06_segment are satisfiable (a drift-like leaf type over R) *)
 Example C06_nonvacuous :
   let M := mk7 (mk7 1 2 0 0 0 0 0) (mk7 0 1 0 0 0 0 3) (mk7 0 0 1 0 0 0 0) (mk7 0 0 0 1 0 0 0)
@@ -145,4 +157,6 @@ Print Assumptions C06_cavity_energy_gain.
 Print Assumptions C06_cavity_charge_same.
 Print Assumptions C06_cavity_off_param_refuted.
 Print Assumptions C06_cavity_off_part_nonlinear_refuted.
+Print Assumptions C06_cavity_param_not_psd_refuted.
+Print Assumptions C06_cx_at_zero_length.
 Print Assumptions C06_nonvacuous.
